@@ -234,3 +234,16 @@ func DescIs(s string) func(string) bool { return func(d string) bool { return d 
 func DescHasPrefix(s string) func(string) bool {
 	return func(d string) bool { return strings.HasPrefix(d, s) }
 }
+
+// isNE reports whether an ordering set means "not equal".
+func isNE(s engine.OrdSet) bool { return s == engine.LT|engine.GT }
+
+// isNEc reports whether the true edge of a comparison means "operands
+// differ"; for a non-negative operand compared with 0, "> 0" is that test.
+func isNEc(cd engine.Cond) bool {
+	s := cd.EdgeOrd(true)
+	if s == engine.LT|engine.GT {
+		return true
+	}
+	return s == engine.GT && cd.Y == "0" && engine.NonNegative(cd.XV)
+}
